@@ -8,15 +8,21 @@
   Theorems about the executable model Y0.Model.Trso of src/y0/algorithm/transport.py (after the `fix:` commits of
   branch fix-transport), tied to the Python on every run by the correspondence check of harness/props/c05.py.
 
-  What is proved here (all inputs, any recursion budget):
+  What is proved here:
     §1 error taxonomy / totality   `trsoF_error_internal`, `identify_error_cases`, `identify_invalid_iff`,
-                                   `identify_trichotomy`
+                                   `identify_trichotomy`                                  (all inputs, any budget)
+       "never fails otherwise"     `trso_no_internal_error_partial` (no declared experiment: no failure at all),
+                                   `trso_only_activate_error_partial` (ALL validated inputs: the only failure that can
+                                   remain is the NotImplementedError of `activate` on `One()`),
+                                   `trso_no_recursion_or_key_error_partial`
     §2 selection diagrams          `mem_nodes/mem_di/bi_createTransportDiagram`, `tnode_parentless`,
                                    `getNodesToTransport_spec`, `getNodesToTransport_total`
     §3 vocabulary (C06)            `trso_vocab_C05`, `trso_no_domains_target_only`   (proofs in Props/C06Transport)
+       no surrogate = ID           `trso_no_surrogate_iff_id_partial`, `trso_no_surrogate_none_iff_id_partial` (verdicts)
     §4 semantics                   `den_sumSafe`, `line1_den`  (line 1 is marginalisation of the carried distribution)
   What is NOT proved (visible below as `-- OPEN:` blocks and listed in ASSUMPTIONS of the harness module):
-    trso_sound, trso_no_surrogate_iff_id (den part), trso_no_internal_error (inputs with declared experiments).
+    trso_sound; the denotation part of trso_no_surrogate_iff_id; trso_no_internal_error for inputs with declared
+    experiments beyond "only `activate`'s NotImplementedError" (that `activate` never meets `One()`).
 -/
 import Y0.Props.C06Transport
 import Y0.Lemmas.TrsoTotal
